@@ -358,7 +358,12 @@ def run_check(cid, tier="quick", seed=0, replay=None, only=None):
         v = {"kind": "crash", "returncode": c["returncode"], "stderr_tail": c["stderr_tail"], "variant": c["variant"], "property": prop}
         if hasattr(mod, "classify_crash"):
             v.update(mod.classify_crash(c) or {})
-        if crash_is_violation or v.get("is_violation"):
+        # a fatal signal raised while the code under test was executing a legitimate case (SIGSEGV, SIGBUS, SIGFPE, SIGABRT, SIGILL) refutes any
+        # property whose observable that call was to produce; a SIGKILL / unknown death (OOM killer, operator) stays inconclusive
+        fatal = c.get("case") is not None and c.get("returncode") in (-11, -7, -8, -6, -4)
+        if fatal and v.get("kind") == "crash":
+            v["kind"] = "crash_fatal_signal"
+        if crash_is_violation or v.get("is_violation") or fatal:
             e = classify(v, known)
             if e is not None:
                 known_hits.setdefault(e["id"], {"entry": e, "n": 0, "first": v})
